@@ -241,23 +241,81 @@ func (it *Interp) scEq(a, b *smt.Term) *smt.Term {
 	return it.polyIsZero(d)
 }
 
-// polyIsZero: p == 0 (mod n). A single monomial vanishes iff one of its atoms does (n is prime).
+// polyIsZero: p == 0 (mod n). n is prime, so Z_n is a field: with p = c * g * q (c a non-zero constant, g the
+// common monomial factor of all terms, q made monic in its first monomial), p vanishes iff an atom of g does or
+// q does. Normalising this way makes the zero tests of k, -2k, c*lambda*k ... share one canonical atom "q = 0".
 func (it *Interp) polyIsZero(d *Poly) *smt.Term {
 	c := it.C
 	if v, ok := d.isConst(); ok {
 		return c.BoolConst(v.Sign() == 0)
 	}
-	if len(d.terms) == 1 {
-		for k := range d.terms {
-			r := c.False
-			for _, a := range d.monos[k].atoms {
-				r = c.Or(r, c.Eq(a, c.IntI(0)))
+	// common monomial factor
+	type ae struct {
+		t *smt.Term
+		e int
+	}
+	var common map[int]*ae
+	for k := range d.terms {
+		m := d.monos[k]
+		cur := map[int]*ae{}
+		for i, t := range m.atoms {
+			cur[t.ID] = &ae{t, m.exps[i]}
+		}
+		if common == nil {
+			common = cur
+			continue
+		}
+		for id, x := range common {
+			if y, ok := cur[id]; !ok {
+				delete(common, id)
+			} else if y.e < x.e {
+				x.e = y.e
 			}
-			return r
 		}
 	}
-	// canonical orientation: compare the canonical difference with zero
-	return c.Eq(it.polyTerm(d), c.IntI(0))
+	r := c.False
+	ids := make([]int, 0, len(common))
+	for id := range common {
+		ids = append(ids, id)
+	}
+	sort.Ints(ids)
+	for _, id := range ids {
+		r = c.Or(r, c.Eq(common[id].t, c.IntI(0)))
+	}
+	// quotient by the common factor
+	q := newPoly()
+	for k, coef := range d.terms {
+		m := d.monos[k]
+		rm := unitMono
+		for i, t := range m.atoms {
+			e := m.exps[i]
+			if x, ok := common[t.ID]; ok {
+				e -= x.e
+			}
+			if e > 0 {
+				rm = monoMul(rm, &mono{key: strconv.Itoa(t.ID) + "^" + strconv.Itoa(e), atoms: []*smt.Term{t}, exps: []int{e}})
+			}
+		}
+		q.addTerm(rm, coef)
+	}
+	if _, ok := q.isConst(); ok {
+		return r // q is a non-zero constant
+	}
+	// make q monic in its first monomial (sorted keys)
+	keys := make([]string, 0, len(q.terms))
+	for k := range q.terms {
+		keys = append(keys, k)
+	}
+	sort.Strings(keys)
+	lead := keys[0]
+	if lead == "" && len(keys) > 1 {
+		lead = keys[1]
+	}
+	inv := new(big.Int).ModInverse(q.terms[lead], secpN)
+	if inv != nil && inv.Cmp(big.NewInt(1)) != 0 {
+		q = polyMul(q, polyConst(inv))
+	}
+	return c.Or(r, c.Eq(it.polyTerm(q), c.IntI(0)))
 }
 
 func (it *Interp) scIsZero(t *smt.Term) *smt.Term { return it.polyIsZero(it.polyOf(t)) }
